@@ -90,10 +90,6 @@ ASSUMPTIONS = [
     "defects that act inside a constructor on the object's OWN state are "
     "invisible to a fresh-twin differential (the twin runs the same "
     "constructor); caller inputs and shared data are still compared",
-    "RainfallClimateNetwork takes part as interferer / for the input clause "
-    "only: its similarity matrix depends on heap contents (the kernel reads "
-    "the int8 event mask through int*, C20's finding), so none of its values "
-    "is a deterministic function of the inputs",
     "InteractingNetworks.RandomlyRewireCrossLinks and the geomodel rewiring "
     "methods loop until a random proposal is accepted (hang risk) and are "
     "not called",
@@ -386,6 +382,22 @@ class Family:
         """Object without history on which shared() gives the reference."""
         return self.construct(case, inp)
 
+    def region(self, obj, qname):
+        """Suffix for the clause name when (object, victim query) lies in the
+        region of a known finding (decided from the library state)."""
+        if qname == "nsi_eigenvector_centrality":
+            # eigsh(..., sigma=total_node_weight**2) looks for the eigenvalue
+            # NEAREST to sigma; the top eigenvalue is <= the total weight W,
+            # so for W < 1 sigma lies inside the spectrum and a lower
+            # (possibly degenerate) eigenvalue can be nearer: the result then
+            # depends on ARPACK's unseeded random start vector
+            try:
+                if float(obj.total_node_weight) < 1.0:
+                    return "__total_node_weight_below_1"
+            except (AttributeError, TypeError):
+                pass
+        return ""
+
     def cls_name(self, case):
         return self.name
 
@@ -644,14 +656,15 @@ def run_sequence(fam, case, rec, steps):
         if not outcome_same(out, iso, q.tol):
             culprit = blame(fam, case, rec, steps, k, q.tol) if k else \
                 "<none>"
-            rec.fail("order/%s:%s->%s" % (s.own(culprit), culprit, qname),
+            rec.fail("order/%s:%s->%s%s" % (s.own(culprit), culprit, qname,
+                                            fam.region(s.obj, qname)),
                      "in sequence %s ; isolated %s ; %s" % (
                          _show(out), _show(iso),
                          where_diff(iso[1], out[1])
                          if out[0] == iso[0] == "val" else ""))
         elif qname in last and not outcome_same(out, last[qname], q.tol):
-            rec.fail("order/%s:%s->%s" % (s.own(prev_name), prev_name,
-                                          qname),
+            rec.fail("order/%s:%s->%s%s" % (s.own(prev_name), prev_name,
+                                            qname, fam.region(s.obj, qname)),
                      "differs from its own earlier value")
         last[qname] = out
         if prev_name is not None and prev_name != qname:
@@ -659,7 +672,8 @@ def run_sequence(fam, case, rec, steps):
         if rep:
             out2 = s.run(qname, seed + k)
             if not outcome_same(out2, out, q.tol):
-                rec.fail("repeat/%s:%s" % (s.own(qname), qname),
+                rec.fail("repeat/%s:%s%s" % (s.own(qname), qname,
+                                             fam.region(s.obj, qname)),
                          "first %s ; second %s" % (_show(out), _show(out2)))
             rec.label("repeated")
         prev_name = qname
@@ -973,7 +987,7 @@ def enum_pairs(fam, extra=None):
             m = len(names)
             # quick: a strided sample in which every query occurs in both
             # roles; thorough: all ordered pairs
-            stride = 1 if tier != "quick" else 23
+            stride = 1 if tier != "quick" else 13
             idx = 0
             for i in range(m):
                 for j in range(m):
@@ -1503,10 +1517,7 @@ def data_table():
                       random_names=("shuffled_anomaly",),
                       props=("grid",))
     for kind in CLIMATE_CLASSES:
-        # Rainfall: the kernel reads the int8 mask through an int* (C20's
-        # defect), its similarity depends on heap contents: interferer only
         tab["new:" + kind] = Q("new:" + kind, kind, _new_net(kind),
-                               rand=(kind == "Rainfall"),
                                tol=1e-6 if kind == "Hilbert" else TOL)
     return tab
 
@@ -1795,11 +1806,7 @@ def rainfall_cases(draw):
 @st.composite
 def climnet_cases(draw):
     case = draw(climate_data_case(4, 6))
-    # Rainfall: every value derives from a similarity matrix that depends on
-    # heap contents (int8 mask read through int*, C20); its static helpers
-    # are checked by the rainfall_statics sub-check instead
-    case["cls"] = draw(st.sampled_from(
-        [c for c in CLIMATE_CLASSES if c != "Rainfall"]))
+    case["cls"] = draw(st.sampled_from(CLIMATE_CLASSES))
     case["win"] = None
     case["thr"] = draw(st.sampled_from([0.05, 0.1, 0.3]))
     names = sorted(CLIMNET.table(case))
@@ -2311,36 +2318,36 @@ def events_cases(draw):
 
 SUBCHECKS = [
     SubCheck("network_seq", oracle_sequence(NETWORK), gen=network_cases,
-             quick=(4, 60), thorough=(16, 1200)),
+             quick=(4, 120), thorough=(16, 1200)),
     SubCheck("network_pairs", oracle_pair(NETWORK), enum=enum_pairs(NETWORK),
              quick=(8, None), thorough=(16, None), exhaustive=("thorough",)),
     SubCheck("geo_seq", oracle_sequence(GEO), gen=geo_cases,
-             quick=(4, 50), thorough=(16, 1000)),
+             quick=(4, 100), thorough=(16, 1000)),
     SubCheck("geo_pairs", oracle_pair(GEO),
              enum=enum_pairs(GEO, geo_extra),
              quick=(8, None), thorough=(16, None), exhaustive=("thorough",)),
     SubCheck("spatial_seq", oracle_sequence(SPATIAL), gen=spatial_cases,
              quick=(2, 40), thorough=(8, 600)),
     SubCheck("interacting_seq", oracle_sequence(INTERACTING),
-             gen=interacting_cases, quick=(3, 50), thorough=(16, 800)),
+             gen=interacting_cases, quick=(4, 80), thorough=(16, 800)),
     SubCheck("climate_chain", oracle_sequence(DATA), gen=chain_cases,
-             quick=(6, 30), thorough=(16, 500)),
+             quick=(6, 50), thorough=(16, 500)),
     SubCheck("climate_data_seq", oracle_sequence(DATA), gen=data_cases,
-             quick=(2, 60), thorough=(8, 800)),
+             quick=(2, 100), thorough=(8, 800)),
     SubCheck("climate_net_seq", oracle_sequence(CLIMNET), gen=climnet_cases,
-             quick=(6, 30), thorough=(16, 500)),
+             quick=(6, 50), thorough=(16, 500)),
     SubCheck("rainfall_statics", oracle_sequence(RAINSTAT),
              gen=rainfall_cases, quick=(1, 40), thorough=(2, 400)),
     SubCheck("recurrence_seq", oracle_sequence(RECURRENCE),
-             gen=recurrence_cases, quick=(4, 60), thorough=(16, 1000)),
+             gen=recurrence_cases, quick=(4, 120), thorough=(16, 1000)),
     SubCheck("visibility_seq", oracle_sequence(VISIBILITY),
-             gen=visibility_cases, quick=(1, 60), thorough=(4, 800)),
+             gen=visibility_cases, quick=(1, 100), thorough=(4, 800)),
     SubCheck("surrogates_seq", oracle_sequence(SURROGATES),
-             gen=surrogates_cases, quick=(2, 60), thorough=(8, 1000)),
+             gen=surrogates_cases, quick=(2, 150), thorough=(8, 1000)),
     SubCheck("coupling_seq", oracle_sequence(COUPLING), gen=coupling_cases,
-             quick=(2, 40), thorough=(8, 600)),
+             quick=(2, 80), thorough=(8, 600)),
     SubCheck("events_seq", oracle_sequence(EVENTS), gen=events_cases,
-             quick=(2, 40), thorough=(8, 600)),
+             quick=(2, 80), thorough=(8, 600)),
     SubCheck("resistive_seq", oracle_sequence(RES), gen=res_cases,
              quick=(2, 40), thorough=(8, 600)),
 ]
